@@ -67,7 +67,7 @@ func (g *gen) ref(from, to int, frag string) string {
 	var base string
 	switch {
 	case f.Host == t.Host && !(from == 0 && (g.s.RootForm == "data" || g.s.RootForm == "reader")):
-		base = relPath(path.Dir(f.Path), t.Path)
+		base = esc(relPath(path.Dir(f.Path), t.Path))
 		if g.r.Chance(1, 6) && !strings.HasPrefix(base, "../") {
 			base = "./" + base
 		}
@@ -103,8 +103,11 @@ func (g *gen) absLoc(i int) string { return AbsLoc(g.s, i) }
 
 // AbsLoc gives the location text of file i: what a reference (or the entry
 // point) must say to designate it without a base.
+func esc(p string) string { return (&url.URL{Path: p}).EscapedPath() }
+
 func AbsLoc(s *Spec, i int) string {
 	f := s.Files[i]
+	f.Path = esc(f.Path) // a file name may hold characters that must be escaped in a reference
 	if f.Host != "" {
 		return fmt.Sprintf("http://%s-%s.test/%s", f.Host, s.Marker, f.Path)
 	}
@@ -359,6 +362,10 @@ func Gen(seed uint64, prop, tier string) *Spec {
 		f := File{Path: simfw.Pick(r, dirs) + fmt.Sprintf("f%d.json", i+1)}
 		if r.Chance(1, 5) && s.RootForm != "data" && s.RootForm != "reader" {
 			f.Host = "h1"
+		}
+		if r.Chance(1, 8) {
+			// a file name with a literal percent sequence: referenced as %25.., decoded exactly once
+			f.Path = simfw.Pick(r, dirs) + fmt.Sprintf("q%%2Fr%d.json", i+1)
 		}
 		switch r.Intn(4) {
 		case 0, 1:
